@@ -61,7 +61,7 @@ inductive Built where
   | outOfScope        -- C05 does not speak about this input (overlapping / empty exons, frame NONE, unsorted, …)
   | cds (c : CDSIn)
 
-def specBuild (r : RawCDS) : Built :=
+def specBuildCDS (r : RawCDS) : Built :=
   if r.exons.isEmpty ∨ r.exons.any (fun e => e.1 < 0 ∨ e.1 > e.2.1) then .refuse
   else if r.exons.any (fun e => e.2.2 < -1 ∨ e.2.2 > 2) then .refuse
   else if r.exons.all (fun e => e.1 = e.2.1) then .refuse
@@ -93,7 +93,9 @@ def pLocs : P (List Location) := pList pOutLoc
 
 def pS : P (List Char) := do
   let t ← tok
-  if t.startsWith "s:" then pure (t.drop 2).toList else throw s!"s:? {t}"
+  match t.toList with
+  | 's' :: ':' :: rest => pure rest
+  | _ => throw s!"s:? {t}"
 
 def pBoolWord : P Bool := do
   match (← tok) with
@@ -107,7 +109,7 @@ def verdictC (ok : Bool) (cls : String) : String := if ok then "pass" else "fail
 
 /-- common frame of the CDS ops: refuse / out of scope / judge -/
 def withCDS {α} (r : RawCDS) (a : Ans α) (judge : CDSIn → String) : String :=
-  match specBuild r with
+  match specBuildCDS r with
   | .refuse => if a.toOption.isNone then "pass" else "fail constructed-invalid-cds"
   | .outOfScope => "n/a"
   | .cds c => judge c
